@@ -69,7 +69,14 @@ def run(env, tier, seed, broken=None):
                 want[cid] = (kind, PRE_LINES + k + 1)
     # statement-level faults
     stmts = [('%s xx = 1;' % VAR, 'RRedeclare', 'none'), ('%s;' % BREAK, 'RStrayBreak', 'top'), ('%s;' % CONTINUE, 'RStrayContinue', 'top'),
-             ('%s 1;' % RETURN, 'RStrayReturn', 'top'), ('%s q1 = 1, q1 = 2;' % VAR, 'RRedeclare', 'any')]
+             ('%s 1;' % RETURN, 'RStrayReturn', 'top'), ('%s q1 = 1, q1 = 2;' % VAR, 'RRedeclare', 'any'),
+             ('%s fp(pa, pb) { %s "in-fp"; }\nfp(1, 2);' % (FUN, PRINT), None, 'none')]
+    stmts = [x for x in stmts if x[1]]
+    param_faults = [('%s fq(pa, pb) {\n  %s pa = 5;\n  %s "after-in";\n}\nfq(1, 2);' % (FUN, VAR, PRINT), 'RRedeclare', 1), ('%s fr() {\n  %s fr = 5;\n  %s "after-in";\n}\nfr();' % (FUN, VAR, PRINT), 'RRedeclare', 1)]
+    for st, kind, off in param_faults:
+        cid = 'm%d' % n; n += 1
+        cases.append({'id': cid, 'src': PRE + st + '\n' + POST, 'stdin': 'in1\nin2\n', 'timeout_ms': 2500})
+        want[cid] = (kind, PRE_LINES + off + 1)
     for st, kind, where in stmts:
         for enc in (['none'] if where in ('top', 'none') else ENCLOSURES):
             lines, k = wrap(st, enc)
